@@ -58,12 +58,12 @@ def random_history(rng):
     fam = rng.choice([4, 6])
     # the generator does not know how many bytes short transfers really moved, so a blocking receive always has a timeout here
     # (waiting without a timeout is exercised separately with a parked background receiver)
-    lines = ["scenario"] + tcp_pair(fam) + udp_pair(fam) + ["set 2 timeout 100", "set 3 timeout 100"]
+    lines = ["scenario"] + tcp_pair(fam) + udp_pair(fam) + ["set 2 timeout 150", "set 3 timeout 150"]
     sent = {2: 0, 3: 0}
     rcvd = {2: 0, 3: 0}
     peer = {2: 3, 3: 2}
     nb = {2: False, 3: False, 4: False, 5: False}
-    tmo = {2: 100, 3: 100, 4: 0, 5: 0}
+    tmo = {2: 150, 3: 150, 4: 0, 5: 0}
     dgq = {4: 0, 5: 0}
     did = [1000]
     for _ in range(rng.randint(10, 60)):
@@ -93,7 +93,7 @@ def random_history(rng):
             lines.append("set %d blocking %d" % (h, v))
             nb[h] = v == 0
         elif r < 0.8:
-            v = rng.choice([40, 80, 100])
+            v = rng.choice([60, 120, 150])
             lines.append("set %d timeout %d" % (h, v))
             tmo[h] = v
         elif r < 0.9:
